@@ -398,6 +398,10 @@ pub fn run(ctx: &mut Ctx) {
                     if !ctx.mine(idx) {
                         continue;
                     }
+                    if !ctx.until(0.35) {
+                        ctx.count("nesting_phase_cases_skipped_over_time_share", 1);
+                        continue;
+                    }
                     if tl.is_some() && rl.is_some() && rl != Some(d) {
                         continue;
                     }
@@ -438,7 +442,7 @@ pub fn run(ctx: &mut Ctx) {
                 ctx.class("source", "corpus_prefix_sweep");
             }
             k += step;
-            if !ctx.until(0.45) {
+            if !ctx.until(0.6) {
                 ctx.note("prefix_sweep_cut_short", json!(true));
                 break 'outer;
             }
